@@ -40,6 +40,14 @@ type ODecl struct {
 	Tight   bool   `json:"tight"` // source starts and ends with a non-space character
 }
 
+// OSel: an identifier `Name` used as the base of a selector expression `Name.Sel`; Resolved = a declaration of the
+// same file binds it (parameter, result, receiver, local, range / closure variable, file-level declaration), so
+// it cannot be a package name. Computed with object resolution ON, whatever flags internal/imports uses.
+type OSel struct {
+	Name     string `json:"name"`
+	Resolved bool   `json:"resolved"`
+}
+
 type OFile struct {
 	Name      string    `json:"name"`
 	ParseOK   bool      `json:"parseOK"`
@@ -49,7 +57,8 @@ type OFile struct {
 	Remaining string    `json:"remaining"`
 	RemMode   string    `json:"remMode"` // none | block | line
 	Used      []string  `json:"used"`    // unresolved selector bases (what internal/imports.Prune calls used)
-	Sha       string    `json:"sha"` // SHA-256 of the file's bytes
+	Sels      []OSel    `json:"sels"`    // every selector base with what Go's scoping says about it (input of the model's walk)
+	Sha       string    `json:"sha"`     // SHA-256 of the file's bytes
 	Raw       string    `json:"-"`
 }
 
@@ -58,9 +67,9 @@ var pkgNames = map[string]string{
 	"github.com/vektah/gqlparser/v2/ast":                "ast",
 	"github.com/99designs/gqlgen/graphql":               "graphql",
 	"github.com/99designs/gqlgen/graphql/introspection": "introspection",
-	"verifharness/harness/c19/lib/errors":                 "errors",
-	"verifharness/harness/c19/lib/mylib":                  "mylib",
-	"verifharness/harness/c19/lib/v2":                     "deep",
+	"verifharness/harness/c19/lib/errors":               "errors",
+	"verifharness/harness/c19/lib/mylib":                "mylib",
+	"verifharness/harness/c19/lib/v2":                   "deep",
 }
 
 func pkgNameOf(path string) string {
@@ -124,7 +133,7 @@ const warnFirst = "// !!! WARNING !!!"
 const warnLast = "Move them out to keep these resolver files clean."
 
 func observeFile(path string) OFile {
-	of := OFile{Name: filepath.Base(path), RemMode: "none", Imports: []OImport{}, Decls: []ODecl{}, Used: []string{}}
+	of := OFile{Name: filepath.Base(path), RemMode: "none", Imports: []OImport{}, Decls: []ODecl{}, Used: []string{}, Sels: []OSel{}}
 	b, err := os.ReadFile(path)
 	if err != nil {
 		of.ParseErr = err.Error()
@@ -198,13 +207,26 @@ func observeFile(path string) OFile {
 	}
 	// used names: the walk of internal/imports.getUnusedImports
 	used := map[string]bool{}
+	sels := map[OSel]bool{}
 	ast.Inspect(f, func(n ast.Node) bool {
 		if se, ok := n.(*ast.SelectorExpr); ok {
-			if id, ok := se.X.(*ast.Ident); ok && id.Obj == nil {
-				used[id.Name] = true
+			if id, ok := se.X.(*ast.Ident); ok {
+				sels[OSel{Name: id.Name, Resolved: id.Obj != nil}] = true
+				if id.Obj == nil {
+					used[id.Name] = true
+				}
 			}
 		}
 		return true
+	})
+	for k := range sels {
+		of.Sels = append(of.Sels, k)
+	}
+	sort.Slice(of.Sels, func(i, j int) bool {
+		if of.Sels[i].Name != of.Sels[j].Name {
+			return of.Sels[i].Name < of.Sels[j].Name
+		}
+		return !of.Sels[i].Resolved && of.Sels[j].Resolved
 	})
 	for k := range used {
 		of.Used = append(of.Used, k)
